@@ -27,5 +27,8 @@ MCPortOfH == [i \in MCInstH |-> CASE i \in {"a1", "a2", "h1"} -> "p1" [] i \in {
                                   [] i = "c1" -> "p3" [] OTHER -> i]
 MCIpOfH   == [i \in MCInstH |-> IF i = "b2" THEN "ip1" ELSE "any"]
 MCTcpH    == MCInstH \ {"h1"}
+\* shapes of generated histories (DynListeners_Gen)
+ShapeAny    == <<>>
+ShapeTunnel == <<"table", "hold", "table", "check">>     \* a tunnel kept across a change of the table
 ASSUME WantedIsAdvertised
 =============================================================================
